@@ -74,6 +74,8 @@ func runC02(p *core.Prog, r *core.Report) {
 	c02R4(p, r)
 	c02R5(p, r)
 	c02R6(p, r)
+	c02R7(p, r)
+	c02R8(p, r)
 }
 
 // rootedAt reports whether address a is (a field/element chain of) field `field` of receiver recv.
@@ -426,27 +428,62 @@ func c02R4(p *core.Prog, r *core.Report) {
 			return false
 		}
 		bytesOK, nameOK := false, false
-		core.Calls(fn, func(c ssa.CallInstruction) {
-			cal := core.Callee(c)
-			if cal == nil {
-				return
+		// the write may live in an unexported helper of the package: values inside it are mapped back
+		// to the arguments of the call
+		expand := func(v ssa.Value, h *ssa.Function, call ssa.CallInstruction) []ssa.Value {
+			if call == nil {
+				return []ssa.Value{v}
 			}
-			if core.IsMethod(cal, "os", "File", "Write") && fromM(core.CallArg(c, 1), "RawBody") {
-				bytesOK = true
+			var out []ssa.Value
+			for _, o := range core.Origins(v, core.SliceOpts{FieldsThrough: true}) {
+				if o.Kind != core.OParam {
+					continue
+				}
+				for i, q := range h.Params {
+					if q == o.Param {
+						out = append(out, core.CallArg(call, i))
+					}
+				}
 			}
-			if isOS(cal, "Rename") {
-				for _, l := range pathLeaves(core.CallArg(c, 1)) {
-					if lc, ok := l.(*ssa.Call); ok {
-						if f := core.Callee(lc); f != nil && f.Name() == "Encoded" {
-							for _, o := range core.Origins(core.CallArg(lc, 0), core.SliceOpts{FieldsThrough: true}) {
-								if o.Kind == core.OCall && isInvoke(o.Call, "GetDescriptor") {
-									nameOK = true
+			return out
+		}
+		scan := func(h *ssa.Function, call ssa.CallInstruction) {
+			core.Calls(h, func(c ssa.CallInstruction) {
+				cal := core.Callee(c)
+				if cal == nil {
+					return
+				}
+				if core.IsMethod(cal, "os", "File", "Write") {
+					for _, v := range expand(core.CallArg(c, 1), h, call) {
+						if fromM(v, "RawBody") {
+							bytesOK = true
+						}
+					}
+				}
+				if isOS(cal, "Rename") {
+					for _, l := range pathLeaves(core.CallArg(c, 1)) {
+						if lc, ok := l.(*ssa.Call); ok {
+							if f := core.Callee(lc); f != nil && f.Name() == "Encoded" {
+								for _, v := range expand(core.CallArg(lc, 0), h, call) {
+									for _, o := range core.Origins(v, core.SliceOpts{FieldsThrough: true}) {
+										if o.Kind == core.OCall && isInvoke(o.Call, "GetDescriptor") {
+											nameOK = true
+										}
+									}
 								}
 							}
 						}
 					}
 				}
+			})
+		}
+		scan(fn, nil)
+		core.Calls(fn, func(c ssa.CallInstruction) {
+			h := core.CalleeFn(c)
+			if h == nil || h == fn || core.FuncPkg(h) == nil || core.FuncPkg(h).Path() != modPath(ocidirRel) || h.Object() == nil || h.Object().Exported() {
+				return
 			}
+			scan(h, c)
 		})
 		r.Check(bytesOK && nameOK, rule, p.FuncName(fn), "file content and name from one manifest", p.Pos(fn.Pos()), fmt.Sprintf("bytes written = m.RawBody(): %v; file name = Encoded() of m.GetDescriptor().Digest: %v", bytesOK, nameOK))
 	} else {
@@ -593,5 +630,204 @@ func c02R6(p *core.Prog, r *core.Report) {
 			}
 			r.Check(!shared, rule, fname, "stored manifest shared", p.Pos(cc.c.Pos()), "the manifest object put into the cache stays reachable by the caller (parameter or return value): editing it poisons the cache entry of its old digest")
 		}
+	}
+}
+
+// ---------------------------------------------------------------------------------------------
+// R7 the constructors describe the stored raw bytes
+
+func c02R7(p *core.Prog, r *core.Report) {
+	const rule = "C02.R7"
+	r.Rule(rule, "constructors describe the raw bytes: the digest stored into the descriptor is FromBytes of the stored raw body (signed schema1: its canonical payload), and from that store every path to a success return passes a store of len(raw body) into the descriptor size (no 'keep the size that was supplied' path)", 2)
+	for _, name := range []string{"fromCommon", "fromOrig"} {
+		fn := p.Func("types/manifest", name)
+		if fn == nil {
+			r.MissingAnchor(rule, "types/manifest."+name)
+			continue
+		}
+		fname := p.FuncName(fn)
+		var okRets []*ssa.Return
+		for _, ret := range core.Returns(fn) {
+			if core.IsNilConst(core.ReturnOperand(ret, 1)) {
+				okRets = append(okRets, ret)
+			}
+		}
+		isRawLen := func(in ssa.Instruction) bool {
+			st, ok := in.(*ssa.Store)
+			if !ok {
+				return false
+			}
+			fa, ok := st.Addr.(*ssa.FieldAddr)
+			if !ok {
+				return false
+			}
+			n, f := core.FieldAddrInfo(fa)
+			if n == nil || f != "Size" || n.Obj().Name() != "Descriptor" {
+				return false
+			}
+			v := st.Val
+			if cv, ok := v.(*ssa.Convert); ok {
+				v = cv.X
+			}
+			c, ok := v.(*ssa.Call)
+			if !ok {
+				return false
+			}
+			if b, ok := c.Call.Value.(*ssa.Builtin); !ok || b.Name() != "len" {
+				return false
+			}
+			return strings.HasSuffix(accessPath(c.Call.Args[0]), ".rawBody")
+		}
+		lab := labeler{}
+		n := 0
+		for _, fs := range fieldStores([]*ssa.Function{fn}, func(nn *types.Named, f string) bool { return f == "Digest" && nn.Obj().Name() == "Descriptor" }) {
+			for _, oc := range originCalls(fs.Store.Val) {
+				cal := core.Callee(oc)
+				if cal == nil || cal.Name() != "FromBytes" {
+					continue
+				}
+				n++
+				arg := core.CallArg(oc, 1)
+				ap := accessPath(arg)
+				label := lab.next("descriptor digest")
+				switch {
+				case strings.HasSuffix(ap, ".Canonical"):
+					r.Held(rule, fname, label+" (signed schema1)", p.Pos(fs.Store.Pos()), "listed exception: the digest of a signed schema1 manifest is that of its canonical payload; its size is not checked here")
+				case strings.HasSuffix(ap, ".rawBody"):
+					seen := core.Reach{Stop: isRawLen}.FromInstr(fs.Store)
+					bad := ""
+					for _, ret := range okRets {
+						if seen[ret] {
+							bad = p.Pos(ret.Pos())
+						}
+					}
+					if bad != "" {
+						r.Violated(rule, fname, label, p.Pos(fs.Store.Pos()), "the success return at "+bad+" is reachable from the digest store without the descriptor size being set to len(raw body): a size supplied with the descriptor or a header survives although it is not the length of the bytes")
+					} else {
+						r.Held(rule, fname, label, p.Pos(fs.Store.Pos()), "digest of the stored raw body; the size is set to its length on every path to a success return")
+					}
+				default:
+					r.Violated(rule, fname, label, p.Pos(fs.Store.Pos()), "the digest is computed from "+quoteOr(ap, "a value that is not the raw body field")+" and not from the stored raw body: when raw bytes were supplied the descriptor names other bytes than RawBody returns")
+				}
+			}
+		}
+		if n == 0 {
+			r.Violated(rule, fname, "descriptor digest", p.Pos(fn.Pos()), "no store of a recomputed digest into the descriptor")
+		}
+	}
+}
+
+func quoteOr(s, alt string) string {
+	if s == "" || strings.HasPrefix(s, "call@") || strings.HasPrefix(s, "phi@") {
+		return alt
+	}
+	return s
+}
+
+// ---------------------------------------------------------------------------------------------
+// R8 nobody re-encodes a manifest
+
+// isManifestValue: the static type of v (before boxing) is the Manifest interface or a type whose
+// method set implements it.
+func isManifestValue(p *core.Prog, v ssa.Value) bool {
+	pkg := p.Pkg("types/manifest")
+	if pkg == nil {
+		return false
+	}
+	tn, _ := pkg.Types.Scope().Lookup("Manifest").(*types.TypeName)
+	if tn == nil {
+		return false
+	}
+	iface, _ := tn.Type().Underlying().(*types.Interface)
+	if iface == nil {
+		return false
+	}
+	for i := 0; i < 4; i++ {
+		switch x := v.(type) {
+		case *ssa.MakeInterface:
+			v = x.X
+			continue
+		case *ssa.ChangeInterface:
+			v = x.X
+			continue
+		}
+		break
+	}
+	t := v.Type()
+	if types.Identical(t, tn.Type()) {
+		return true
+	}
+	if _, isI := t.Underlying().(*types.Interface); isI {
+		return types.Implements(t, iface) && t.Underlying().(*types.Interface).NumMethods() > 0
+	}
+	return types.Implements(t, iface) || types.Implements(types.NewPointer(t), iface)
+}
+
+func c02R8(p *core.Prog, r *core.Report) {
+	const rule = "C02.R8"
+	r.Rule(rule, "raw bytes are preserved: in the packages that store or send content no manifest value is handed to encoding/json (json.Marshal compacts and HTML-escapes what MarshalJSON returns, so the bytes written would no longer hash to the digest); helpers that encode an `any` parameter are followed to their callers", 3)
+	scope := map[string]bool{modPath("."): true, modPath("scheme/reg"): true, modPath("scheme/ocidir"): true, modPath("mod"): true, modPath("pkg/archive"): true}
+	isEnc := func(f *types.Func) bool {
+		if f == nil || f.Pkg() == nil || f.Pkg().Path() != "encoding/json" {
+			return false
+		}
+		return f.Name() == "Marshal" || f.Name() == "MarshalIndent" || f.Name() == "Encode"
+	}
+	var check func(fn *ssa.Function, v ssa.Value, site ssa.Instruction, via string, depth int)
+	seenParam := map[*ssa.Parameter]bool{}
+	lab := map[*ssa.Function]labeler{}
+	check = func(fn *ssa.Function, v ssa.Value, site ssa.Instruction, via string, depth int) {
+		if lab[fn] == nil {
+			lab[fn] = labeler{}
+		}
+		label := lab[fn].next("JSON encoding" + via)
+		if isManifestValue(p, v) {
+			r.Violated(rule, p.FuncName(fn), label, p.Pos(site.Pos()), "a manifest is re-encoded with encoding/json; the output is the compacted, HTML-escaped form of its raw body and does not hash to its digest unless the body happened to be in that form")
+			return
+		}
+		// an `any` parameter: follow to the callers
+		inner := v
+		if mi, ok := inner.(*ssa.MakeInterface); ok {
+			inner = mi.X
+		}
+		if pr, ok := inner.(*ssa.Parameter); ok && depth < 3 {
+			if _, isI := pr.Type().Underlying().(*types.Interface); isI && !seenParam[pr] {
+				seenParam[pr] = true
+				idx := -1
+				for i, q := range fn.Params {
+					if q == pr {
+						idx = i
+					}
+				}
+				for _, st := range p.Callers(fn) {
+					c, ok := st.Site.(ssa.CallInstruction)
+					if !ok || core.CalleeFn(c) != fn || idx < 0 {
+						continue
+					}
+					check(st.From, core.CallArg(c, idx), st.Site, " through "+fn.Name(), depth+1)
+				}
+			}
+		}
+		r.Held(rule, p.FuncName(fn), label, p.Pos(site.Pos()), "the encoded value is not a manifest")
+	}
+	for _, fn := range p.ModFuncs {
+		pk := core.FuncPkg(fn)
+		if pk == nil || !scope[pk.Path()] || fn.Synthetic != "" {
+			continue
+		}
+		core.Calls(fn, func(c ssa.CallInstruction) {
+			if !isEnc(core.Callee(c)) {
+				return
+			}
+			args := c.Common().Args
+			if len(args) == 0 {
+				return
+			}
+			v := args[0]
+			if core.Callee(c).Name() == "Encode" && len(args) > 1 {
+				v = args[1]
+			}
+			check(fn, v, c, "", 0)
+		})
 	}
 }
